@@ -9,6 +9,8 @@
 //!   std_feature=true|false   raw_strings=true|false
 //!   map_type=<path>          merge_structurally_equal_types=true|false
 //!   stubs=true|false         generate_unused_types=true|false
+//! and C generator options (backend `c`; used by the cgen engine):
+//!   no_sig_flattening=true|false   autodrop_borrows=yes|no   string_encoding=utf8|utf16
 //!
 //! Mirrors /repo/src/bin/wit-bindgen.rs (`Opts::build()` +
 //! `WorldGenerator::generate`), with default options.
@@ -22,8 +24,8 @@ fn main() -> Result<()> {
     if a.len() < 5 || a[5..].iter().any(|kv| !kv.contains('=')) {
         bail!("usage: exprsmt-driver <backend> <file.wit> <world|-> <out-dir> [key=value ...]");
     }
-    if a.len() > 5 && a[1] != "rust" {
-        bail!("generator options are only supported for the rust backend");
+    if a.len() > 5 && a[1] != "rust" && a[1] != "c" {
+        bail!("generator options are only supported for the rust and c backends");
     }
     let backend = a[1].as_str();
     let wit_path = PathBuf::from(&a[2]);
@@ -60,30 +62,37 @@ fn main() -> Result<()> {
             }
             Box::new(o.build())
         }
+        #[cfg(feature = "other-backends")]
         "c" => {
             let mut o = wit_bindgen_c::Opts::default();
-            for opt in &a[5..] {
-                match opt.as_str() {
-                    "--no-sig-flattening" => o.no_sig_flattening = true,
-                    "--autodrop-borrows=yes" => o.autodrop_borrows = wit_bindgen_c::Enabled::Yes,
-                    "--autodrop-borrows=no" => o.autodrop_borrows = wit_bindgen_c::Enabled::No,
-                    s if s.starts_with("--string-encoding=") => {
-                        o.string_encoding = s["--string-encoding=".len()..].parse()?;
+            for kv in &a[5..] {
+                let (k, v) = kv.split_once('=').unwrap();
+                let yes = matches!(v, "1" | "true" | "on" | "yes");
+                match k {
+                    "no_sig_flattening" => o.no_sig_flattening = yes,
+                    "autodrop_borrows" => {
+                        o.autodrop_borrows = if yes { wit_bindgen_c::Enabled::Yes } else { wit_bindgen_c::Enabled::No }
                     }
-                    other => bail!("unknown c option {other}"),
+                    "string_encoding" => o.string_encoding = v.parse()?,
+                    other => bail!("unknown c generator option {other}"),
                 }
             }
             o.build()
         }
+        #[cfg(feature = "other-backends")]
         "cpp" => wit_bindgen_cpp::Opts::default().build(Some(&out_dir)),
+        #[cfg(feature = "other-backends")]
         "csharp" => wit_bindgen_csharp::Opts::default().build(),
+        #[cfg(feature = "other-backends")]
         "go" => wit_bindgen_go::Opts::default().build(),
+        #[cfg(feature = "other-backends")]
         "moonbit" => {
             // `Opts::default()` leaves `gen_dir` empty; the CLI default is "gen".
             let mut o = wit_bindgen_moonbit::Opts::default();
             o.gen_dir = "gen".to_string();
             o.build()
         }
+        #[cfg(feature = "other-backends")]
         "d" => wit_bindgen_d::Opts::default().build(Some(&out_dir)),
         other => bail!("unknown backend {other}"),
     };
